@@ -773,7 +773,8 @@ class Folder:
     def _call(self, st, t):
         name = t.get("callee") or t.get("declared")
         args = [self._operand(st, a) for a in t["args"]]
-        entry = {"callee": name, "args": args, "line": t.get("line"), "file": t.get("file"),
+        dargs = [self._load_ptr(st, a[1]) if (a != TOP and a[0] == "ref") else a for a in args]
+        entry = {"callee": name, "args": args, "dargs": dargs, "line": t.get("line"), "file": t.get("file"),
                  "depth": len(st.frames) - st.base, "in": st.frames[-1][0].path}
         st.trace.append(entry)
         if self.stop is not None and self.stop(entry):
@@ -870,8 +871,10 @@ def _max(folder, st, args, t):
     return TOP
 
 
-@modelled("<usize as std::convert::From<bool>>::from", "<u8 as std::convert::From<bool>>::from",
-          "<u16 as std::convert::From<bool>>::from", "<u32 as std::convert::From<bool>>::from")
+@modelled("std::convert::num::<impl std::convert::From<bool> for usize>::from",
+          "std::convert::num::<impl std::convert::From<bool> for u8>::from",
+          "std::convert::num::<impl std::convert::From<bool> for u16>::from",
+          "std::convert::num::<impl std::convert::From<bool> for u32>::from")
 def _from_bool(folder, st, args, t):
     a = args[0]
     ty = t.get("dest_ty")
@@ -880,9 +883,12 @@ def _from_bool(folder, st, args, t):
     return TOP
 
 
-@modelled("<u16 as std::convert::From<u8>>::from", "<u32 as std::convert::From<u8>>::from",
-          "<usize as std::convert::From<u8>>::from", "<u32 as std::convert::From<u16>>::from",
-          "<usize as std::convert::From<u16>>::from", "<u64 as std::convert::From<u32>>::from")
+@modelled("std::convert::num::<impl std::convert::From<u8> for u16>::from",
+          "std::convert::num::<impl std::convert::From<u8> for u32>::from",
+          "std::convert::num::<impl std::convert::From<u8> for usize>::from",
+          "std::convert::num::<impl std::convert::From<u16> for u32>::from",
+          "std::convert::num::<impl std::convert::From<u16> for usize>::from",
+          "std::convert::num::<impl std::convert::From<u32> for u64>::from")
 def _from_int(folder, st, args, t):
     a = args[0]
     ty = t.get("dest_ty")
